@@ -58,6 +58,7 @@ func LinearAttempt(ctx context.Context, rate time.Duration, count int) <-chan ti
 			verifAt("attempt.tw0", nil, i)
 			select {
 			case <-ctx.Done():
+				verifAt("attempt.tw1", nil, i)
 				return
 			case t = <-ticker.C:
 			}
